@@ -36,7 +36,7 @@ def main():
             "kind_free_text": "property-based testing: Hypothesis 6.168 strategies (seeded from VERIF_SEED) drive named oracles (reference models, round trips, metamorphic relations, stateful histories); failures are shrunk and written as JSON replay files",
         }],
         "checks": checks,
-        "notes": "All checks: `run.py <ID> --tier quick|thorough`; exit 0 held / 1 VIOLATION / 2 harness error. Known findings in /verif/KNOWN_FINDINGS.txt (witnesses under /verif/known).",
+        "notes": "All checks: `run.py <ID> --tier quick|thorough`; exit 0 held / 1 VIOLATION / 2 harness error. Known findings in /verif/KNOWN_FINDINGS.txt (witnesses under /verif/known). A generated input on which the code under test kills the interpreter (numba/LAPACK fatal error, segmentation fault) is replayed in a fresh process and reported as a VIOLATION with that input only if it dies again; time limits are CPU-time based and never a verdict. Sensitivity: SENSITIVITY.md (hand-written mutants), seeded/README.md and seeded/RECHECK.md (120 independently seeded changes).",
         "not_applicable": [{"property_id": k, "reason": v} for k, v in sorted(NOT_APPLICABLE.items())],
     }
     with open(os.path.join(ROOT, "MANIFEST.json"), "w") as f:
